@@ -26,7 +26,8 @@ RULE = (
     "direction, tolerance, allow_exact_matches; oracle pandas.merge_asof in left order. concat: 2-3 frames with partly "
     "different columns, axis 0 (order == pandas unless interleave_partitions reorders by divisions) and axis 1 (unique "
     "index, known divisions; 30 % with every input in one partition), join inner/outer, interleave_partitions, "
-    "ignore_unknown_divisions, optionally followed by the selection of the first/last result column. "
+    "ignore_unknown_divisions, optionally (28 %) followed by the selection of the first/last result column; zero-row "
+    "inputs only as a rare stratum (~7 % of the axis-0 cases). "
     "Non-trivial: both sides have >= 2 partitions, a duplicated key occurs on both sides (many-to-many) and some key is "
     "missing on one side."
 )
@@ -35,6 +36,7 @@ ASSUMPTIONS = [
     "dtype differences are accepted only when dask's own _meta announces the computed dtype (empty-partition upcasts)",
     "leftsemi reference: rows of left whose key tuple occurs in right (pandas inner merge against right's distinct keys)",
     "merge_asof inputs are sorted by the asof key and contain no missing keys, as pandas requires",
+    "the lowering strategy (hash / broadcast-left|right / blockwise) is read from the optimized expression only to label failures and evidence counters; it never enters the oracle",
 ]
 TECHNIQUE = "differential testing against pandas.merge / merge_asof / concat on the unpartitioned frames"
 
@@ -356,8 +358,10 @@ def concat_case(draw):
         if len(fs["columns"]) > 1 and draw(st.booleans()):
             fs["columns"] = fs["columns"][1:]
         fs["index"]["name"] = None
-        if axis == 0 and draw(st.integers(0, 39)) == 0:
-            fs["nrows"] = 0  # zero-row input: a separate, rare stratum (~5-7 % of the axis-0 cases; sig flag empty_input)
+        if axis == 0 and draw(st.sampled_from(range(12))) == 11:
+            # zero-row input: a separate, rare stratum (measured: ~6-8 % of the axis-0 cases; sig flag empty_input).  sampled_from,
+            # not integers(): Hypothesis draws the bounds of an integer range far more often than 1/n
+            fs["nrows"] = 0
         if fs["nrows"] and draw(st.integers(0, 9)) < 4:
             fs["partition"] = draw(C.bydivs_partition(fs["nrows"]))
         elif axis == 0 and draw(st.integers(0, 9)) < 2:
@@ -368,7 +372,7 @@ def concat_case(draw):
         for fs in frames:
             fs["partition"] = {"how": "npartitions", "n": 1, "sort": True}
     return {"frames": frames, "op": {"axis": axis, "join": draw(st.sampled_from(["outer", "outer", "inner"])), "interleave": draw(st.booleans()), "ignore_unknown": draw(st.booleans()),
-                                     "project": draw(st.sampled_from([None, None, "first", "last"]))}}
+                                     "project": draw(st.sampled_from([None, None, None, None, None, "first", "last"]))}}
 
 
 SUBCHECKS = [
